@@ -1,6 +1,7 @@
 package main
 
 import (
+	"os/exec"
 	"time"
 	"strconv"
 	"math/rand"
@@ -15,6 +16,7 @@ import (
 	"amverif/conc"
 	"amverif/hist"
 	"amverif/pipes"
+	"amverif/race"
 	"amverif/core"
 	"amverif/helpers"
 )
@@ -37,6 +39,8 @@ func main() {
 		os.Exit(cmdPipes(os.Args[2:]))
 	case "hist":
 		os.Exit(cmdHist(os.Args[2:]))
+	case "race":
+		os.Exit(cmdRace(os.Args[2:]))
 	case "disposereplay":
 		b, _ := os.ReadFile(os.Args[2])
 		dc, err := conc.ParseDCase(strings.Split(string(b), "\n"))
@@ -260,6 +264,67 @@ func cmdConc(args []string) int {
 		fmt.Printf("MONITOR-FAIL finding=%q %s (%s)\n", f.Finding, f.Msg, f.File)
 	}
 	if len(res.Disagreements) > 0 || len(res.Failures) > 0 {
+		return 1
+	}
+	return 0
+}
+
+func cmdRace(args []string) int {
+	fs := flag.NewFlagSet("race", flag.ExitOnError)
+	fs.String("prop", "C12", "")
+	tier := fs.String("tier", "quick", "quick|thorough")
+	seed := fs.Int64("seed", 1, "PRNG seed")
+	n := fs.Int("cases", 0, "programs")
+	fs.String("driver", "", "")
+	out := fs.String("out", "/verif/out", "")
+	result := fs.String("result", "", "")
+	fs.String("corpus", "", "")
+	replay := fs.String("replay", "", "")
+	bin := fs.String("bin", "/verif/bin/amrace", "race-instrumented program runner")
+	search := fs.Bool("search", false, "")
+	fs.Parse(args)
+	if *replay != "" {
+		// the file names the program (seed, kind): run it repeatedly under the detector
+		b, err := os.ReadFile(*replay)
+		if err != nil {
+			fmt.Println(err)
+			return 2
+		}
+		var sd int64
+		for _, l := range strings.Split(string(b), "\n") {
+			if strings.HasPrefix(l, "PROGRAM ") {
+				fmt.Sscanf(l, "PROGRAM seed=%d", &sd)
+			}
+		}
+		cmd := fmt.Sprintf("for i in $(seq 1 40); do GORACE='halt_on_error=1 exitcode=66' %s -seed %d -programs 1 >/dev/null 2>%s/replay.race.txt || { cat %s/replay.race.txt; exit 1; }; done", *bin, sd, *out, *out)
+		c := exec.Command("bash", "-c", cmd)
+		c.Stdout = os.Stdout
+		c.Stderr = os.Stderr
+		if err := c.Run(); err != nil {
+			return 1
+		}
+		fmt.Println("no race in 40 runs of program", sd)
+		return 0
+	}
+	if *n == 0 {
+		*n = 480
+		if *tier == "thorough" {
+			*n = 8000
+		}
+	}
+	if *search {
+		*n *= 3
+	}
+	res := race.RunPipeline(*bin, *seed, *tier, *out, *n, *search)
+	b, _ := json.MarshalIndent(res, "", " ")
+	if *result != "" {
+		os.WriteFile(*result, b, 0o644)
+	}
+	fmt.Printf("programs=%d failures=%d wall=%.1fs note=%s\n", res.Cases, len(res.Failures), res.WallS, res.Note)
+	for _, f := range res.Failures {
+		fmt.Printf("MONITOR-FAIL finding=%q %s (%s)\n", f.Finding, f.Msg, f.File)
+	}
+	if len(res.Failures) > 0 {
 		return 1
 	}
 	return 0
